@@ -12,10 +12,15 @@
 //	run <ms>                  let virtual time pass
 //	garbage <n>               the "client" sends n undecryptable bytes attributed to the connection (short header, the server's connection ID)
 //	pinginitial               the "client" sends a well-protected small Initial packet carrying PING (ack-eliciting: an ACK becomes pending)
+//	coalesced <kind> <k> <pad>   the "client" sends ONE datagram with k coalesced packets that carry the connection's ID:
+//	                          I = k well-protected small Initial packets (PING + pad bytes of PADDING each),
+//	                          Z = one such Initial followed by k-1 undecryptable 0-RTT packets,
+//	                          G = one such Initial followed by (k-1)*pad bytes of garbage
 //	badinitial                the "client" sends a well-protected small Initial packet carrying a frame that is not allowed (forces a local close)
 //	closeserver               Listener.Close(): handshaking connections are refused
 //
-// result: `ok ev=<events since the previous op> | <tail>` with events iN (N bytes delivered to the server; suffix
+// result: `ok ev=<events since the previous op> | conns=<n> hr=<bytesReceived> hs=<bytesSent> hv=<validated>` (the server
+// connection's own accounting, read through a hook) with events iN (N bytes delivered to the server; suffix
 // H = contains a Handshake packet, T = an Initial carrying a token), oN (the server wrote N bytes).
 package ampe2e
 
@@ -204,6 +209,9 @@ func (rn *runner) GenOp(r *vh.Rand, i int) string {
 	if i == 1 {
 		return "run 1000"
 	}
+	if r.Chance(22) {
+		return fmt.Sprintf("coalesced %s %d %d", []string{"I", "I", "Z", "G"}[r.Intn(4)], 2+r.Intn(5), []int{0, 0, 20, 150}[r.Intn(4)])
+	}
 	switch r.Pick(45, 15, 10, 15, 15) {
 	case 0:
 		return fmt.Sprintf("run %d", []int64{1, 10, 100, 300, 1000, 3000}[r.Intn(6)])
@@ -220,7 +228,12 @@ func (rn *runner) GenOp(r *vh.Rand, i int) string {
 
 func (rn *runner) res(head string) string {
 	synctest.Wait()
-	return fmt.Sprintf("%s ev=%s", head, rn.rt.drain())
+	n, hs, hr, hv := quic.VerifAmpServerConnStates(rn.str)
+	v := 0
+	if hv {
+		v = 1
+	}
+	return fmt.Sprintf("%s ev=%s | conns=%d hr=%d hs=%d hv=%d", head, rn.rt.drain(), n, hr, hs, v)
 }
 
 func (rn *runner) Exec(op string) string {
@@ -305,6 +318,45 @@ func (rn *runner) Exec(op string) string {
 		rn.injPN++
 		rn.rt.inject(smallInitial(odcid, scid, cscid, v, []byte{0x01, 0, 0, 0, 0, 0, 0, 0}, 1000+rn.injPN), "") // PING + PADDING
 		return rn.res("ok")
+	case "coalesced":
+		if len(f) != 4 {
+			return "bad-op"
+		}
+		rn.rt.mu.Lock()
+		scid, odcid, cscid, v := rn.rt.serverSCID, rn.rt.origDCID, rn.rt.clientSCID, rn.rt.version
+		rn.rt.mu.Unlock()
+		if scid.Len() == 0 || odcid.Len() == 0 {
+			return rn.res("skip")
+		}
+		k, pad := int(vh.Atoi64(f[2])), int(vh.Atoi64(f[3]))
+		if k < 1 || k > 8 || pad < 0 || pad > 400 {
+			return "bad-op"
+		}
+		ping := append([]byte{0x01}, make([]byte, 7+pad)...)
+		var data []byte
+		switch f[1] {
+		case "I":
+			for i := 0; i < k; i++ {
+				rn.injPN++
+				data = append(data, smallInitial(odcid, scid, cscid, v, ping, 1000+rn.injPN)...)
+			}
+		case "Z":
+			rn.injPN++
+			data = smallInitial(odcid, scid, cscid, v, ping, 1000+rn.injPN)
+			for i := 1; i < k; i++ {
+				data = append(data, zeroRTTJunk(scid, cscid, v, 40+pad)...)
+			}
+		case "G":
+			rn.injPN++
+			data = smallInitial(odcid, scid, cscid, v, ping, 1000+rn.injPN)
+			for i := 0; i < (k-1)*pad; i++ {
+				data = append(data, byte(i*13+5)&0x3f)
+			}
+		default:
+			return "bad-op"
+		}
+		rn.rt.inject(data, "")
+		return rn.res("ok")
 	case "closeserver":
 		if rn.closed {
 			return rn.res("skip")
@@ -334,6 +386,23 @@ func smallInitial(odcid, dcid, scid protocol.ConnectionID, v protocol.Version, p
 	raw = append(raw[:hdrLen:hdrLen], sealed...)
 	pnOffset := hdrLen - 4
 	sealer.EncryptHeader(raw[pnOffset+4:pnOffset+4+16], &raw[0], raw[pnOffset:pnOffset+4])
+	return raw
+}
+
+// zeroRTTJunk is a 0-RTT long-header packet for this connection whose payload cannot be decrypted
+func zeroRTTJunk(dcid, scid protocol.ConnectionID, v protocol.Version, n int) []byte {
+	hdr := &wire.ExtendedHeader{
+		Header: wire.Header{Type: protocol.PacketType0RTT, DestConnectionID: dcid, SrcConnectionID: scid, Version: v,
+			Length: protocol.ByteCount(4 + n)},
+		PacketNumber: 7, PacketNumberLen: protocol.PacketNumberLen4,
+	}
+	raw, err := hdr.Append(nil, v)
+	if err != nil {
+		return nil
+	}
+	for i := 0; i < n; i++ {
+		raw = append(raw, byte(i*29+11))
+	}
 	return raw
 }
 
